@@ -741,7 +741,7 @@ func c10F18Pattern(e *c10E, verdict string) bool {
 
 func c10F18Witness() *c10E {
 	return &c10E{CondIDs: []int{1}, Case: c10Case{Path: "save",
-		Schema: c10Sch{Fields: []c10F{{"ID", "uint", "primaryKey"}, {"Qty", "int", ""}}},
+		Schema: c10Sch{Fields: []c10F{{Name: "ID", Kind: "uint", Tag: "primaryKey"}, {Name: "Qty", Kind: "int"}}},
 		Rows:   []c10Vals{{"ID": 4, "Qty": 1011}}, Model: c10Vals{}}}
 }
 
